@@ -2050,9 +2050,50 @@ PROPS = {
 }
 
 
+def source_changed():
+    """files of /repo whose content differs from the sources the model was written against (tools/source_pins.json)"""
+    import hashlib
+    try:
+        pins = json.load(open(os.path.join(vlib.VERIF, 'tools', 'source_pins.json')))['files']
+    except Exception:
+        return []
+    out = []
+    for f, h in pins.items():
+        try:
+            if hashlib.sha256(open(os.path.join(vlib.REPO, f), 'rb').read()).hexdigest() != h:
+                out.append(f)
+        except OSError:
+            out.append(f)
+    return out
+
+
+def replay(prop, path):
+    """./check <id> --replay <file>: run the recorded failing inputs through the implementation built from /repo's current tree;
+    the violation is reproduced when an input still gives the outcome that was judged a violation"""
+    data = json.load(open(path))
+    vio = data.get('violations') or []
+    if not vio:
+        print('replay file names no failing input (%s): re-running the check' % ('; '.join(b.get('kind', '?') for b in data.get('no_longer_checks', [])) or 'n/a'))
+        return None
+    vlib.build_harness(('s1',))
+    cases = [('replay-%d' % i, v['input']) for i, v in enumerate(vio)]
+    h = vlib.run_impl(cases, 's1', os.path.join(vlib.BUILD, 'tmp', prop, 'replay'), tag='replay')
+    n = 0
+    for (cid, text), v in zip(cases, vio):
+        now = (h.get(cid, {}).get('OUT') or '')
+        if now[:4000] == (v.get('impl_outcome') or '')[:4000]:
+            n += 1
+            log('  reproduced:', v.get('why', '')[:300], '\n', text[:400])
+    if n:
+        print('VIOLATION property=%s replay=%s' % (prop, path))
+        return 1
+    log('%s: none of the %d recorded inputs gives the recorded outcome any more' % (prop, len(cases)))
+    return 0
+
+
 def main(argv):
     if not argv:
-        print('usage: check <property> [--tier quick|thorough]')
+        print('usage: check <property> [--tier quick|thorough] [--replay FILE]')
         return 2
     prop = argv[0]
     tier = os.environ.get('VERIF_TIER', 'quick')
@@ -2062,14 +2103,46 @@ def main(argv):
     if prop not in PROPS:
         print('unknown property', prop)
         return 2
-    ctx = Ctx(prop, tier, seed)
-    try:
-        return PROPS[prop](ctx)
-    except vlib.BuildError as e:
-        # the framework itself could not be built: not a verdict about the property
-        log('BUILD ERROR:', str(e)[:4000])
-        vlib.write_evidence(prop, tier, seed, 'proof', {'evaluations': 1, 'distinct_nontrivial': 0, 'obligations': 1, 'discharged': 0,
-                            'checker_cmd': 'build failed', 'trusted_base': [], 'explanation': str(e)[:2000]}, [], 1)
-        path = vlib.write_replay(prop, {'property': prop, 'build_error': str(e)[:6000]})
-        print('VIOLATION property=%s replay=%s no-failing-input-found' % (prop, path))
-        return 1
+    if '--replay' in argv:
+        try:
+            rc = replay(prop, argv[argv.index('--replay') + 1])
+        except vlib.BuildError as e:
+            log('BUILD ERROR:', str(e)[:2000])
+            rc = None
+        if rc is not None:
+            return rc
+    # When the sources differ from the ones the model was written against and the first pass finds no concrete failing input,
+    # the quick tier searches on with further seeds (same sizes): a change that needs a rare input is the expected case then.
+    changed = source_changed() if tier == 'quick' else []
+    passes = [seed] + ([seed + 1, seed + 2] if changed else [])
+    first_rc = None
+    first_ev = None
+    for i, sd in enumerate(passes):
+        ctx = Ctx(prop, tier, sd)
+        if changed:
+            ctx.cov['sources_changed'] = changed
+            ctx.cov['search_pass'] = i + 1
+        try:
+            rc = PROPS[prop](ctx)
+        except vlib.BuildError as e:
+            # the framework itself could not be built: not a verdict about the property
+            log('BUILD ERROR:', str(e)[:4000])
+            vlib.write_evidence(prop, tier, sd, 'proof', {'evaluations': 1, 'distinct_nontrivial': 0, 'obligations': 1, 'discharged': 0,
+                                'checker_cmd': 'build failed', 'trusted_base': [], 'explanation': str(e)[:2000]}, [], 1)
+            path = vlib.write_replay(prop, {'property': prop, 'build_error': str(e)[:6000]})
+            print('VIOLATION property=%s replay=%s no-failing-input-found' % (prop, path))
+            return 1
+        if first_rc is None:
+            first_rc = rc
+            try:
+                first_ev = open(os.path.join(vlib.VERIF, 'evidence', prop + '.json')).read()
+            except OSError:
+                first_ev = None
+        if ctx.violations:
+            return rc            # a concrete failing input: decided
+        if i + 1 < len(passes):
+            log('%s: sources changed (%s), no failing input in pass %d: searching on with seed %d' % (prop, ', '.join(changed), i + 1, passes[i + 1]))
+    if first_rc and not rc and first_ev is not None:
+        # the verdict is the first pass's (a tie that no longer checks, no failing input found by any pass): so is the evidence
+        open(os.path.join(vlib.VERIF, 'evidence', prop + '.json'), 'w').write(first_ev)
+    return 1 if first_rc else (rc or 0)
